@@ -9,7 +9,10 @@ PROP = "C05"
 THOROUGH_SEEDS = 2        # seeds per thorough run (bin/check)
 
 READERS = [{"kind": "slice"}, {"kind": "chunks", "sched": [1]}, {"kind": "chunks", "sched": []}, {"kind": "bufreader", "cap": 1},
-           {"kind": "bufreader", "cap": 7}, {"kind": "bufreader", "cap": 8192}, {"kind": "chunks", "sched": [3, 1, 2]}]
+           {"kind": "bufreader", "cap": 7}, {"kind": "bufreader", "cap": 8192}, {"kind": "chunks", "sched": [3, 1, 2]},
+           # the other entry points: Reader::deserialize() (iterator) and deserialize_next::<T>() with an owned target
+           {"kind": "slice", "api": "iter"}, {"kind": "bufreader", "cap": 5, "api": "iter"}, {"kind": "chunks", "sched": [2], "api": "typed"},
+           {"kind": "slice", "api": "typed"}]
 
 
 def model_check():
